@@ -92,7 +92,8 @@ PROPS = {
                 "BaseWorkflow.record", "BaseProduct.record", "BaseTeam.record_assigned_task_id", "BaseTeam.record_all_worker_state",
                 "BaseWorkplace.record_assigned_task_id", "BaseWorkplace.record_all_facility_state", "BaseComponent.initialize",
                 "BaseTask.initialize", "BaseWorker.initialize", "BaseFacility.initialize", "BaseTeam.initialize",
-                "BaseWorkplace.initialize", "BaseProduct.initialize", "BaseProject.simulate", "BaseProject.initialize", "BaseWorkflow.initialize", "BaseOrganization.initialize", "BaseOrganization.record"],
+                "BaseWorkplace.initialize", "BaseProduct.initialize", "BaseTask.reverse_log_information", "BaseComponent.reverse_log_information", "BaseWorker.reverse_log_information", "BaseFacility.reverse_log_information", "BaseWorkflow.reverse_log_information", "BaseProduct.reverse_log_information", "BaseTeam.reverse_log_information", "BaseWorkplace.reverse_log_information", "BaseOrganization.reverse_log_information", "BaseProject.reverse_log_information",
+                "BaseProject.simulate", "BaseProject.initialize", "BaseWorkflow.initialize", "BaseOrganization.initialize", "BaseOrganization.record"],
         "static": COMMON_STATIC,
         "level_text": "Every record_* method is proved to append exactly one entry equal to the live attribute (with the display rule), "
                       "every aggregating record method to do so once for every member and nothing else (frames), for all models.",
@@ -104,12 +105,14 @@ PROPS = {
     },
     "C14": {
         "inv": ["BaseComponent.check_state", "BaseComponent.initialize", "BaseProduct.check_state", "BaseComponent.record_state",
-                "BaseProduct.initialize"],
+                "BaseProduct.initialize", "BaseProject.simulate"],
         "static": COMMON_STATIC,
         "level_text": "check_state is proved against the exact value table of the three-stage update and against each clause of the "
                       "property (FINISHED iff all tasks FINISHED, WORKING if any WORKING, never back to NONE, never out of FINISHED "
                       "while tasks stay finished) for every task list incl. empty; product.check_state applies it to every component.",
-        "level_note": "Function-level; the body-order obligation over simulate (check_state after every task-state write, before record) pending.",
+        "level_note": "Composition: `component-state-follows-tasks` is a step obligation of the main loop of simulate (the real body, with "
+                      "product.check_state after every task-state change, executed against the phase contracts): it fails if a check is "
+                      "dropped or moved. `never leaves FINISHED` additionally uses C01 (tasks never leave FINISHED); that combination is not a single obligation.",
         "design_ref": "DESIGN.md section 6 C14",
         "assumptions": ["task references not None; distinct components in product.component_list"],
         "explanation": "component state rule",
@@ -297,7 +300,8 @@ PROPS = {
         "explanation": "saved format: definite assignment, key consistency, completeness; constructor round trip",
     },
     "C17": {
-        "inv": ["BaseWorkflow.reverse_dependencies", "BaseOrganization.reverse_dependencies"],
+        "inv": ["BaseWorkflow.reverse_dependencies", "BaseOrganization.reverse_dependencies", "BaseProject.reverse_log_information",
+                "BaseOrganization.reverse_log_information", "BaseWorkflow.reverse_log_information", "BaseProduct.reverse_log_information"],
         "static": COMMON_STATIC + ["c17_structure_not_in_frame"],
         "level_text": "reverse_dependencies of workflow and organization are verified to swap the two link lists of every member as the SAME "
                       "list objects (value identity), so two calls restore the structure; simulate and everything it can call are shown "
